@@ -82,7 +82,7 @@ CONFIGS = {
     'quick': [{'retry': 30, 'idle_hold': 30}, {'retry': 10, 'idle_hold': 5}],
     'thorough': [{'retry': r, 'idle_hold': i} for r in (10, 30, 40) for i in (5, 30)],
 }
-DEPTH = {'quick': 6, 'thorough': 9}
+DEPTH = {'quick': 8, 'thorough': 10}
 DEVK = {'quick': 1, 'thorough': 2}
 
 
